@@ -158,4 +158,4 @@ QUERIES = [
                                "follow_up": FOLLOW},
           outside=["descendant targets under static derivation (child spaces are not inherited; unspecified)", "ItemSpaces nested in ItemSpaces", "more than one follow-up operation"]),
 ]
-BUDGET = {"quick": 420, "thorough": 1800}
+BUDGET = {"quick": 420, "thorough": 1200}
